@@ -19,9 +19,17 @@ Operations (mirroring the code after the `fix:` commits of C13/C14):
   the named reductions, `mean`/`std` rewrites, `stack`/`concatenate`/`flatten` (`_combine_nodes`),
   `select`/`iselect`, `expand` (`_expand_transform`), `transform`, `broadcast`, `join`
   (+`match_coord_values`), binary arithmetic with a scalar or an action.
+Added for the audit response of C13: `mapMany` (`map` with an array of payloads), `selectN` / `iselectN` (several
+criteria, `_validate_criteria` first), `expandG` (`internal_dim` as int, str or `Coord`, `backend_kwargs`, missing
+`dim_size`), `broadcastX` (`exclude`), `join` on a new dimension between arrays of DIFFERENT dimensions (xr.concat
+broadcasts by name: what arithmetic between differently shaped actions rests on), the label `keep_dim` gives the
+kept dimension (`keptLabel`), backend kwargs of stack / concatenate / flatten. The names of the batchable backend
+functions are read from the source (`Gen/FluentMarks.lean`).
 Python exceptions are `Except Err`; `Err.outOfScope` marks xarray corner cases the model does not
 describe (the correspondence check skips those cases and counts them).
 -/
+import EkwVerif.Gen.FluentMarks
+
 namespace EkwVerif.Fluent
 
 /-! ### expressions -/
@@ -167,6 +175,12 @@ def withYields (a : NodeArray) : Option (String × List Coord) → NodeArray
 def map (p : Payload) (yields : Option (String × List Coord)) (a : NodeArray) : NodeArray :=
   withYields { a with node := fun ix => mkNode p [a.node ix] } yields
 
+/-- `Action.map(array of payloads)`: `np.asarray(payload).shape` must be the shape of the node array
+(AssertionError otherwise); the node at a position gets the payload AT THAT POSITION (row-major list). -/
+def mapMany (ps : List Payload) (shape : List Nat) (a : NodeArray) : Except Err NodeArray :=
+  if shape ≠ a.dims.map (·.labels.length) then .error .assert
+  else .ok { a with node := fun ix => mkNode (ps.getD (flatIndex a.dims ix) default) [a.node ix] }
+
 /-- `_add_dimension` = `expand_dims({name: [value]}, axis)` -/
 def addDim (a : NodeArray) (name : String) (label : Coord) (axis : Nat) : Except Err NodeArray :=
   if a.dimNames.contains name then .error .value
@@ -174,14 +188,15 @@ def addDim (a : NodeArray) (name : String) (label : Coord) (axis : Nat) : Except
   else if axis > a.dims.length then .error .index
   else .ok { a with dims := a.dims.take axis ++ [{ name := name, labels := [label], indexed := true }] ++ a.dims.drop axis }
 
-/-- `_squeeze_dimension(dim, drop)`: only dimensions that have a coordinate of length 1 (scalar
-coordinates are ignored — fix commit) -/
+/-- `_squeeze_dimension(dim, drop)`: a DIMENSION of size 1, with or without coordinate (scalar
+coordinates of that name are ignored; a dimension without coordinate leaves no scalar coordinate behind —
+fix commits) -/
 def squeeze (a : NodeArray) (d : String) (drop : Bool) : Except Err NodeArray :=
   match a.findDim d with
   | some x =>
-    if x.indexed && x.labels.length == 1 then
+    if x.labels.length == 1 then
       .ok { dims := dropDim a.dims d,
-            scalars := if drop then a.scalars else a.scalars ++ [(d, x.labels.headD default)],
+            scalars := if drop || !x.indexed then a.scalars else a.scalars ++ [(d, x.labels.headD default)],
             node := fun ix => a.node (ix.set d 0) }
     else .ok a
   | none => .ok a
@@ -250,6 +265,27 @@ def reduceBatched (p : Payload) (d : String) (b : Nat) (a : NodeArray) : Except 
       else .ok (d, a)
   else .ok (d, a)
 
+def coordText : Coord → String
+  | .int i => toString i
+  | .str s => s
+
+/-- a label that prints as itself inside the label `keep_dim` builds (not itself such a label) -/
+def plainLabel : Coord → Bool
+  | .int _ => true
+  | .str s => !(s.startsWith "keep:") && s != "<opaque>"
+
+/-- The label of the dimension `keep_dim=True` re-inserts: `f"{coords[dim][0]}-{coords[dim][-1]}"` of the ORIGINAL
+array — the first and the last label of the reduced dimension (positions `0` and `n-1` for a dimension without
+coordinate). The real string is the text of two 0-d DataArrays; the harness reads the two values back out of it
+(`keep:<first>:<last>`); labels that are themselves such texts are not analysed (`opaqueLabel`). -/
+def keptLabel (a : NodeArray) (d : String) : Coord :=
+  match a.findDim d with
+  | some x =>
+    match x.labels.head?, x.labels.getLast? with
+    | some f, some l => if plainLabel f && plainLabel l then .str ("keep:" ++ coordText f ++ ":" ++ coordText l) else opaqueLabel
+    | _, _ => opaqueLabel
+  | none => opaqueLabel
+
 /-- the rest of `reduce`: one node per remaining position, `yields`, `keep_dim` (the dimension
 is re-inserted under its ORIGINAL name at its original axis — fix commit) -/
 def reduceFinish (p : Payload) (yields : Option (String × List Coord)) (keep : Bool) (a : NodeArray) (d : String)
@@ -257,7 +293,7 @@ def reduceFinish (p : Payload) (yields : Option (String × List Coord)) (keep : 
   if (x.2.findDim x.1).isNone then .error .value     -- `transpose(dim, …)`
   else
     let r := withYields (reduceCore p x.1 x.2) yields
-    if keep then addDim r d opaqueLabel (a.axisOf d) else .ok r
+    if keep then addDim r d (keptLabel a d) (a.axisOf d) else .ok r
 
 /-- `Action.reduce(payload, yields, dim, batch_size, keep_dim)` -/
 def reduce (p : Payload) (yields : Option (String × List Coord)) (d0 : String) (b : Nat) (keep : Bool)
@@ -269,7 +305,9 @@ def reduce (p : Payload) (yields : Option (String × List Coord)) (d0 : String) 
 
 /-! ### named reductions, mean / std rewrites, stack / concatenate / flatten -/
 
-def isBatchableName (n : String) : Bool := n ∈ ["sum", "prod", "min", "max", "var", "concat"]
+/-- the backend functions that carry `@batchable` — the list is regenerated from backends/__init__.py on every
+run of the check (`Gen/FluentMarks.lean`) -/
+def isBatchableName (n : String) : Bool := n ∈ Gen.fluentBatchable
 
 def backendPayload (name : String) (kw : List (String × Static)) : Payload :=
   { fn := name, tmpl := [], kw := kw, batchable := isBatchableName name }
@@ -325,6 +363,10 @@ def pick (a : NodeArray) (x : Dim) (s : Sel Nat) (drop : Bool) : NodeArray :=
       scalars := a.scalars,
       node := fun ix => a.node (ix.set x.name (is.getD (ix x.name) 0)) }
 
+def distinctLabels : List Coord → Bool
+  | [] => true
+  | c :: cs => !cs.contains c && distinctLabels cs
+
 /-- `Action.select({d: value | [values]}, drop)` -/
 def select (d : String) (s : Sel Coord) (drop : Bool) (a : NodeArray) : Except Err NodeArray :=
   match a.findDim d with
@@ -347,6 +389,8 @@ def select (d : String) (s : Sel Coord) (drop : Bool) (a : NodeArray) : Except E
       let i ← loc c
       pure (pick a x (.one i) drop)
     | .many cs => do
+      -- pandas refuses a LIST selection on a coordinate with repeated labels (InvalidIndexError), whatever is asked for
+      if x.indexed && !distinctLabels x.labels then throw Err.outOfScope
       let is ← cs.mapM loc
       pure (pick a x (.many is) drop)
 
@@ -361,6 +405,34 @@ def iselect (d : String) (s : Sel Nat) (drop : Bool) (a : NodeArray) : Except Er
     match s with
     | .one i => if i < x.labels.length then .ok (pick a x (.one i) drop) else .error .index
     | .many is => if is.all (· < x.labels.length) then .ok (pick a x (.many is) drop) else .error .index
+
+/-- `_validate_criteria` for one key: a key that is no dimension must be a scalar coordinate equal to the value -/
+def validateCrit (a : NodeArray) (d : String) (one : Option Coord) : Except Err Unit :=
+  match a.findDim d with
+  | some _ => .ok ()
+  | none =>
+    match one, a.scalar? d with
+    | some c, some v => if c = v then .ok () else .error .notimpl
+    | none, some _ => .error .outOfScope
+    | _, none => .error .notimpl
+
+def Sel.one? {α : Type} : Sel α → Option α
+  | .one c => some c
+  | .many _ => none
+
+/-- `select` / `sel` with several criteria (dict and/or keyword arguments): every key is validated before anything
+is selected; then the selection is orthogonal, i.e. one dimension after the other -/
+def selectN (crit : List (String × Sel Coord)) (drop : Bool) (a : NodeArray) : Except Err NodeArray := do
+  crit.forM (fun c => validateCrit a c.1 c.2.one?)
+  crit.foldlM (fun acc c => select c.1 c.2 drop acc) a
+
+/-- `iselect` / `isel` with several criteria -/
+def iselectN (crit : List (String × Sel Nat)) (drop : Bool) (a : NodeArray) : Except Err NodeArray := do
+  crit.forM (fun c => match a.findDim c.1, c.2, a.scalar? c.1 with
+    | some _, _, _ => (.ok () : Except Err Unit)
+    | none, .one _, some _ => .error .outOfScope
+    | none, _, _ => .error .notimpl)
+  crit.foldlM (fun acc c => iselect c.1 c.2 drop acc) a
 
 /-! ### join (xr.concat) -/
 
@@ -459,10 +531,25 @@ def joinNewDim (dim : DimArg) (sa sb : Option Coord) : Except Err Dim :=
   | .name d, some v, some w => .ok { name := d, labels := [v, w], indexed := true }
   | _, _, _ => .error .outOfScope
 
-/-- stack along a new dimension at axis 0 -/
+/-- the dimensions both arrays have must fit (`join="exact"`); a dimension only one of them has is broadcast -/
+def dimsCompatibleShared (da db : List Dim) : Except Err Unit :=
+  da.forM fun x =>
+    match db.find? (·.name = x.name) with
+    | none => .ok ()
+    | some y =>
+      if x.indexed && y.indexed then (if x.labels = y.labels then .ok () else .error .value)
+      else if x.labels.length = y.labels.length then .ok () else .error .value
+
+/-- a scalar coordinate of one array named like a dimension of the other: xarray silently drops it (not described) -/
+def scalarClash (a b : NodeArray) : Bool :=
+  a.scalars.any (fun s => (b.findDim s.1).isSome) || b.scalars.any (fun s => (a.findDim s.1).isSome)
+
+/-- stack along a new dimension at axis 0. The arrays may have DIFFERENT dimensions: `xr.concat` brings both to the
+union of the dimensions (those of the first array, then the ones only the second has), broadcasting by NAME. -/
 def joinNew (a b : NodeArray) (dim : DimArg) : Except Err NodeArray :=
   let d := dim.dimName
-  match dimsCompatible a.dims b.dims with
+  if scalarClash a b then .error .outOfScope else
+  match dimsCompatibleShared a.dims b.dims with
   | .error e => .error e
   | .ok _ =>
     match mergeScalars (eraseScalar a.scalars d) (eraseScalar b.scalars d) with
@@ -471,7 +558,7 @@ def joinNew (a b : NodeArray) (dim : DimArg) : Except Err NodeArray :=
       match joinNewDim dim (a.scalar? d) (b.scalar? d) with
       | .error e => .error e
       | .ok newDim =>
-        .ok { dims := newDim :: mergeDims a.dims b.dims,
+        .ok { dims := newDim :: (mergeDims a.dims b.dims ++ b.dims.filter (fun y => (a.findDim y.name).isNone)),
               scalars := scalars,
               node := fun ix => if ix d = 0 then a.node ix else b.node ix }
 
@@ -573,6 +660,38 @@ def expand (dim : DimArg) (internal : Int) (size : Nat) (axis : Nat) (a : NodeAr
     else transform (expandTransform (.num internal)) ((List.range size).map natStatic) dim axis a
   | .name _ => transform (expandTransform (.num internal)) ((List.range size).map natStatic) dim axis a
 
+/-- `_expand_transform` with `backend_kwargs`: `{"dim": dim, **backend_kwargs}` -/
+def expandTransformKw (internal : Static) (kw : List (String × Static)) (a : NodeArray) (index : Static) :
+    Except Err NodeArray :=
+  .ok (map { fn := "take", tmpl := [.inp 0, .lit index], kw := ("dim", internal) :: kw } none a)
+
+/-- `internal_dim` of `expand`: an index or a name together with `dim_size`, or a `Coord` (name, selection criteria) -/
+inductive ExpandSpec
+  | sized (internal : Static) (size : Option Nat)
+  | coord (name : String) (values : List Static)
+
+/-- the `(index, internal dimension)` parameters `expand` hands to `transform` -/
+def expandParams : ExpandSpec → Except Err (Static × List Static)
+  | .sized _ none => .error .type            -- "If `internal_dim` is str or int, then `dim_size` must be provided"
+  | .sized i (some n) => .ok (i, (List.range n).map natStatic)
+  | .coord nm vs => .ok (.str nm, vs)
+
+/-- `Action.expand(dim, internal_dim, dim_size, axis, backend_kwargs)` in full -/
+def expandG (dim : DimArg) (spec : ExpandSpec) (kw : List (String × Static)) (axis : Nat) (a : NodeArray) :
+    Except Err NodeArray :=
+  match expandParams spec with
+  | .error e => .error e
+  | .ok (internal, params) =>
+    match dim with
+    | .coord _ ls =>
+      if ls.length ≠ params.length then .error .value
+      else transform (expandTransformKw internal kw) params dim axis a
+    | .name _ => transform (expandTransformKw internal kw) params dim axis a
+
+/-- `Action.flatten(dim, axis, backend_kwargs)` -/
+def flattenKw (d : String) (axis : Int) (kw : List (String × Static)) (a : NodeArray) : Except Err NodeArray :=
+  reduce (backendPayload "stack" (("axis", .num axis) :: kw)) none d 0 false a
+
 /-! ### broadcast -/
 
 def trivialPayload : Payload := { fn := "trivial" }
@@ -629,5 +748,27 @@ def broadcast (a b : NodeArray) : Except Err NodeArray := do
     | none => y
   let onlyA := a.dims.filter (fun x => (b.findDim x.name).isNone)
   pure { dims := fromB ++ onlyA, scalars := a.scalars, node := fun ix => mkNode trivialPayload [a.node ix] }
+
+/-- `Action.broadcast(other, exclude)`: the dimensions (and coordinates) named in `exclude` take no part — they are
+neither compared nor broadcast -/
+def broadcastX (a b : NodeArray) (exclude : List String) : Except Err NodeArray := do
+  let bdims := b.dims.filter (fun y => !exclude.contains y.name)
+  match errorsOf (bdims.map (broadcastCheckDim a) ++ (b.scalars.filter (fun s => !exclude.contains s.1)).map (broadcastCheckScalar a)) with
+  | [] => pure ()
+  | e :: rest => if rest.all (· = e) then throw e else throw Err.outOfScope
+  a.dims.forM fun x =>
+    match bdims.find? (·.name = x.name) with
+    | some y => if x.labels.length = y.labels.length then pure () else throw Err.outOfScope
+    | none => pure ()
+  let fromB := bdims.map fun y =>
+    match a.findDim y.name with
+    | some x => if x.indexed then x else y
+    | none => y
+  -- xarray appends the excluded dimensions of `a` LAST, iterating over a Python set of names: with two or more of
+  -- them the order depends on the hash seed (not described)
+  let exclA := a.dims.filter (fun x => exclude.contains x.name)
+  if exclA.length > 1 then throw Err.outOfScope
+  let onlyA := a.dims.filter (fun x => !exclude.contains x.name && (bdims.find? (·.name = x.name)).isNone)
+  pure { dims := fromB ++ onlyA ++ exclA, scalars := a.scalars, node := fun ix => mkNode trivialPayload [a.node ix] }
 
 end EkwVerif.Fluent
